@@ -1,8 +1,243 @@
-/- Driver handler owned by property C08: `c08 <args…>` requests. -/
+/-
+  Driver handler owned by property C08: `c08 <args…>` requests.
+
+    c08 run <hex sexp> <fuel> <a>,<b>,<c> [<a>,<b>,<c>]…   →  <answer> [| <answer>]…
+        one call of `main(a: i32, b: i32, c: bool)` per tuple (c is 0/1), on the
+        executable order specification `RotoV.TraceSpec.run`
+        <answer> ::= <outcome> ; <event> <event> …
+        <outcome> ::= ok <val> | fuel | stuck <why>
+        <event>  ::= <fn>(<val>,<val>…)
+        <val>    ::= <int> | true | false | u | s<hex> | none | some:<int> | [<int>;…]
+                   | acc:<int> | rej:<int> | rec[..] | enm<k>[..]
+    c08 lower <hex sexp> <fuel> <a>,<b>,<c> …   →  same answers, computed by running the
+        structured lowering model (`RotoV.LowerS`) — see Model/LowerS.lean
+
+  Program s-expressions (printed by harness/src/c08/ast.rs):
+    prog ::= (prog fn…)                 the last function is main
+    fn   ::= (fn (x…) blk)
+    blk  ::= (blk item…)    item ::= (let x e) | (do e) | (last e)
+    e    ::= (int n) | (bool 0|1) | (unit) | (var x) | (host f e…) | (call f e…)
+           | (bin op e e) | (and e e) | (or e e) | (not e) | (neg e)
+           | (ite e blk blk) | (if1 e blk) | (match e arm…) | (while e blk) | (for x e blk)
+           | (block blk) | (set x e) | (cset op x e) | (ret e) | (accept e) | (reject e)
+           | (try e) | (some e) | (none) | (ctor k e…) | (record e…) | (field e i)
+           | (list e…) | (fstr part…)
+    arm  ::= (arm pat blk) | (armg pat e blk)      pat ::= (v k x…) | (wild)
+    part ::= (s x<hex>) | (e e)
+-/
 import Driver.Util
+import RotoV.Model.TraceSpec
 
 namespace Driver.C08
+open RotoV RotoV.TraceSpec
 
-def handle (_args : List String) : String := "bad-op"
+inductive Sexp
+  | atom (s : String)
+  | list (xs : List Sexp)
+  deriving Inhabited
+
+def tokens (s : String) : List String :=
+  let step (acc : List String × String) (c : Char) : List String × String :=
+    let (out, cur) := acc
+    let flush := if cur.isEmpty then out else cur :: out
+    if c = '(' then ("(" :: flush, "")
+    else if c = ')' then (")" :: flush, "")
+    else if c = ' ' || c = '\n' || c = '\t' then (flush, "")
+    else (out, cur.push c)
+  let (out, cur) := s.foldl step ([], "")
+  (if cur.isEmpty then out else cur :: out).reverse
+
+partial def parseSexp : List String → Option (Sexp × List String)
+  | [] => none
+  | "(" :: rest =>
+    let rec go (ts : List String) (acc : List Sexp) : Option (Sexp × List String) :=
+      match ts with
+      | [] => none
+      | ")" :: rest => some (.list acc.reverse, rest)
+      | ts => match parseSexp ts with
+        | some (x, rest) => go rest (x :: acc)
+        | none => none
+    go rest []
+  | ")" :: _ => none
+  | a :: rest => some (.atom a, rest)
+
+def parseOp : String → Option BinOp
+  | "add" => some .add | "sub" => some .sub | "mul" => some .mul
+  | "eq" => some .eq | "ne" => some .ne | "lt" => some .lt
+  | "le" => some .le | "gt" => some .gt | "ge" => some .ge
+  | _ => none
+
+def hexString (s : String) : Option String := do
+  let bytes ← unhex s
+  String.fromUTF8? (ByteArray.mk bytes.toArray)
+
+def atomNat : Sexp → Option Nat
+  | .atom a => a.toNat?
+  | _ => none
+
+def natList : List Sexp → Option (List Nat)
+  | [] => some []
+  | x :: xs => do
+    let n ← atomNat x
+    let ns ← natList xs
+    pure (n :: ns)
+
+def toPat : Sexp → Option Pat
+  | .list [.atom "wild"] => some .wild
+  | .list (.atom "v" :: k :: bs) => do
+    let k ← atomNat k
+    let bs ← natList bs
+    pure (.variant k bs)
+  | _ => none
+
+mutual
+partial def toExpr : Sexp → Option Expr
+  | .list [.atom "int", .atom n] => do
+    let v ← n.toInt?
+    pure (.lit (.int v))
+  | .list [.atom "bool", .atom b] => if b = "1" then some (.lit (.bool true)) else if b = "0" then some (.lit (.bool false)) else none
+  | .list [.atom "unit"] => some (.lit .unit)
+  | .list [.atom "var", .atom x] => x.toNat?.map .var
+  | .list (.atom "host" :: .atom f :: args) => do
+    let f ← f.toNat?
+    let as ← toExprs args
+    pure (.host f as)
+  | .list (.atom "call" :: .atom f :: args) => do
+    let f ← f.toNat?
+    let as ← toExprs args
+    pure (.call f as)
+  | .list [.atom "bin", .atom op, l, r] => do
+    let op ← parseOp op
+    let l ← toExpr l
+    let r ← toExpr r
+    pure (.bin op l r)
+  | .list [.atom "and", l, r] => do pure (.and (← toExpr l) (← toExpr r))
+  | .list [.atom "or", l, r] => do pure (.or (← toExpr l) (← toExpr r))
+  | .list [.atom "not", e] => do pure (.not (← toExpr e))
+  | .list [.atom "neg", e] => do pure (.neg (← toExpr e))
+  | .list [.atom "ite", c, t, e] => do pure (.ite (← toExpr c) (← toBlock t) (← toBlock e))
+  | .list [.atom "if1", c, t] => do pure (.if1 (← toExpr c) (← toBlock t))
+  | .list (.atom "match" :: s :: arms) => do pure (.mtch (← toExpr s) (← toArms arms))
+  | .list [.atom "while", c, b] => do pure (.while (← toExpr c) (← toBlock b))
+  | .list [.atom "for", .atom x, l, b] => do pure (.for (← x.toNat?) (← toExpr l) (← toBlock b))
+  | .list [.atom "block", b] => do pure (.block (← toBlock b))
+  | .list [.atom "set", .atom x, e] => do pure (.assign (← x.toNat?) (← toExpr e))
+  | .list [.atom "cset", .atom op, .atom x, e] => do pure (.cassign (← parseOp op) (← x.toNat?) (← toExpr e))
+  | .list [.atom "ret", e] => do pure (.ret (← toExpr e))
+  | .list [.atom "accept", e] => do pure (.accept (← toExpr e))
+  | .list [.atom "reject", e] => do pure (.reject (← toExpr e))
+  | .list [.atom "try", e] => do pure (.try (← toExpr e))
+  | .list [.atom "some", e] => do pure (.some (← toExpr e))
+  | .list [.atom "none"] => some .none
+  | .list (.atom "ctor" :: .atom k :: args) => do pure (.ctor (← k.toNat?) (← toExprs args))
+  | .list (.atom "record" :: fs) => do pure (.record (← toExprs fs))
+  | .list [.atom "field", e, .atom i] => do pure (.field (← toExpr e) (← i.toNat?))
+  | .list (.atom "list" :: es) => do pure (.list (← toExprs es))
+  | .list (.atom "fstr" :: ps) => do pure (.fstr (← toParts ps))
+  | _ => none
+
+partial def toExprs : List Sexp → Option Exprs
+  | [] => some .nil
+  | x :: xs => do pure (.cons (← toExpr x) (← toExprs xs))
+
+partial def toItems : List Sexp → Option Block
+  | [] => some .nil
+  | [.list [.atom "last", e]] => do pure (.last (← toExpr e))
+  | .list [.atom "let", .atom x, e] :: rest => do pure (.let_ (← x.toNat?) (← toExpr e) (← toItems rest))
+  | .list [.atom "do", e] :: rest => do pure (.stmt (← toExpr e) (← toItems rest))
+  | _ => none
+
+partial def toBlock : Sexp → Option Block
+  | .list (.atom "blk" :: items) => toItems items
+  | _ => none
+
+partial def toArms : List Sexp → Option Arms
+  | [] => some .nil
+  | .list [.atom "arm", p, b] :: rest => do pure (.arm (← toPat p) (← toBlock b) (← toArms rest))
+  | .list [.atom "armg", p, g, b] :: rest => do pure (.armG (← toPat p) (← toExpr g) (← toBlock b) (← toArms rest))
+  | _ => none
+
+partial def toParts : List Sexp → Option Parts
+  | [] => some .nil
+  | .list [.atom "s", .atom h] :: rest => do
+    let s ← hexString (h.drop 1).toString
+    pure (.str s (← toParts rest))
+  | .list [.atom "e", e] :: rest => do pure (.expr (← toExpr e) (← toParts rest))
+  | _ => none
+end
+
+def toFn : Sexp → Option FnDef
+  | .list [.atom "fn", .list ps, b] => do
+    let ps ← natList ps
+    let b ← toBlock b
+    pure ⟨ps, b⟩
+  | _ => none
+
+def toFns : List Sexp → Option (List FnDef)
+  | [] => some []
+  | x :: xs => do pure ((← toFn x) :: (← toFns xs))
+
+def toProg : Sexp → Option (List FnDef)
+  | .list (.atom "prog" :: fns) => toFns fns
+  | _ => none
+
+def hexOf (s : String) : String :=
+  let digit (n : Nat) : Char := if n < 10 then Char.ofNat (48 + n) else Char.ofNat (87 + n)
+  s.toUTF8.toList.foldl (fun acc b => (acc.push (digit (b.toNat / 16))).push (digit (b.toNat % 16))) ""
+
+def showInts (xs : List Int) : String := "[" ++ ";".intercalate (xs.map toString) ++ "]"
+
+def showVal : Val → String
+  | .int v => toString v
+  | .bool b => if b then "true" else "false"
+  | .unit => "u"
+  | .str s => "s" ++ hexOf s
+  | .opt none => "none"
+  | .opt (some v) => "some:" ++ toString v
+  | .enm k fs => s!"enm{k}" ++ showInts fs
+  | .recd fs => "rec" ++ showInts fs
+  | .list xs => showInts xs
+  | .verdict true v => "acc:" ++ toString v
+  | .verdict false v => "rej:" ++ toString v
+
+def showEvent (e : Event) : String :=
+  toString e.fn ++ "(" ++ ",".intercalate (e.args.map showVal) ++ ")"
+
+def showRun (r : Run) : String :=
+  let o := match r.result with
+    | .ok v => "ok " ++ showVal v
+    | .ret v => "ok " ++ showVal v
+    | .fuel => "fuel"
+    | .stuck w => "stuck " ++ w.replace " " "_"
+  o ++ " ;" ++ String.join (r.tr.map (fun e => " " ++ showEvent e))
+
+def parseTuple (s : String) : Option (List Val) :=
+  match s.splitOn "," with
+  | [a, b, c] => do
+    let a ← a.toInt?
+    let b ← b.toInt?
+    let c ← if c = "1" then some true else if c = "0" then some false else none
+    pure [.int a, .int b, .bool c]
+  | _ => none
+
+def tuples : List String → Option (List (List Val))
+  | [] => some []
+  | t :: ts => do pure ((← parseTuple t) :: (← tuples ts))
+
+def parseProg (hexs : String) : Option (List FnDef) := do
+  let bytes ← unhex hexs
+  let text ← String.fromUTF8? (ByteArray.mk bytes.toArray)
+  let (sx, _) ← parseSexp (tokens text)
+  toProg sx
+
+def handle (args : List String) : String :=
+  match args with
+  | "run" :: hexs :: fuel :: ts =>
+    match parseProg hexs, fuel.toNat?, tuples ts with
+    | some fns, some fuel, some ts =>
+      " | ".intercalate (ts.map (fun t => showRun (run fns fuel t)))
+    | none, _, _ => "bad-program"
+    | _, _, _ => "bad-op"
+  | _ => "bad-op"
 
 end Driver.C08
